@@ -128,6 +128,7 @@ def st_object(fmt, big=False):
             attypes=st.booleans(), restypes=st.booleans(), resnums=st.booleans(),
             occupancies=st.booleans(), bfactors=st.booleans(), chainids=st.booleans(),
             compound=st.booleans(), nbond_frac=st.sampled_from([None, 0.0, 0.5, 1.0, 3.0]),
+            long_labels=st.sampled_from([False] * 9 + [True]),
         )
         return st.fixed_dictionaries(d)
     if fmt == "mol2":
@@ -307,6 +308,11 @@ def build_pdb(spec):
     if spec["attypes"]:
         atff["attypes"] = np.array([token(rng, 4) for _ in range(natom)])
         labels.append("opt:attypes")
+        if spec.get("long_labels"):
+            # labels that do not fit in the PDB columns (e.g. atom types taken from a MOL2 file):
+            # the writer may refuse, but must not write a file that cannot be read back
+            atff["attypes"] = np.array([a + "XYZ9" for a in atff["attypes"]])
+            labels.append("may_refuse")
     if spec["restypes"]:
         atff["restypes"] = np.array([token(rng, 3) for _ in range(natom)])
         labels.append("opt:restypes")
